@@ -30,11 +30,23 @@ def gen_case(rng, tier, k):
     nmax = 6 if tier == "quick" else 7
     bnet = common.g_compose(rng, extra_max=max(0, nmax - 4)) if rng.random() < 0.35 else common.g_mixed(rng, nmax=nmax, p_core=0.0)
     ops = []
-    for _ in range(rng.randint(2, 8)):
-        if rng.random() < 0.3:
-            ops.append([rng.choice(["seedsq", "cands", "setsq"]), rng.randrange(64)])
-        else:
-            ops += gen_ops(rng, 1, allow_skip=True, allow_unmodelled=True)
+    if rng.random() < 0.3:
+        # partial expansion, attractor queries on the expanded part, then skip nodes and more queries
+        bnet = common.g_compose(rng, kind="maa", extra_max=max(1, nmax - 3))
+        lim = rng.randint(2, 7)
+        ops.append(rng.choice([["bfs", 0, None, lim], ["dfs", 0, None, lim], ["min", 0, lim, False], ["min", 0, None, True],
+                               ["bfs", 0, rng.randint(0, 1), None]]))
+        for _ in range(rng.randint(1, 4)):
+            ops.append([rng.choice(["seedsq", "cands"]), rng.randrange(64)])
+        ops.append(["skiprem"])
+        for _ in range(rng.randint(1, 4)):
+            ops.append([rng.choice(["seedsq", "setsq"]), rng.randrange(64)])
+    else:
+        for _ in range(rng.randint(2, 8)):
+            if rng.random() < 0.3:
+                ops.append([rng.choice(["seedsq", "cands", "setsq"]), rng.randrange(64)])
+            else:
+                ops += gen_ops(rng, 1, allow_skip=True, allow_unmodelled=True)
     ins = sorted(set(rng.randrange(len(ops) + 1) for _ in range(rng.randint(1, 3))))
     kinds = [rng.choice(["pickle", "reclaim", "pickle+reclaim"]) for _ in ins]
     case = {"bnet": bnet, "ops": ops, "insert_at": ins, "insert_kind": kinds,
@@ -58,7 +70,10 @@ def step(sd, ni, op):
                 r = sd.node_attractor_seeds(i, compute=True)
                 return "seeds:" + ",".join(ni.st(s) for s in r)
             r = sd.node_attractor_candidates(i, compute=True)
-            return "cands:%d" % len(r)      # candidate lists are observed up to C08's predicate only
+            # candidate lists are observed up to C08's predicate only: after a reclaim the API returns the
+            # seeds in their place (documented), so neither the list nor its length is comparable
+            # (a spurious candidate may even make one list empty and the other not)
+            return "cands"
         ret, _ = plain.apply_op(sd, ni, op)
         return ret
     except RuntimeError as e:
